@@ -93,6 +93,39 @@ def r_overflow(ctx, model):
     ctx.floor("functions evaluating exp()", n, 6)
 
 
+# factorisations that exist only for positive-definite input: they raise LinAlgError for the whole (T, V) stack as soon as one
+# grid point is not positive definite, although every modulus is finite there (the property admits such grid corners)
+PD_ONLY = {"numpy.linalg.cholesky", "scipy.linalg.cholesky", "scipy.linalg.cho_factor", "scipy.linalg.cho_solve", "scipy.linalg.cholesky_banded",
+           "numpy.linalg.cholesky_inv", "scipy.linalg.solveh_banded"}
+
+
+def r_pd_only(ctx, model):
+    n = 0
+    found = []
+    for mname in CORE_MODULES:
+        mod = model.mod(mname)
+        for q, f in mod.funcs.items():
+            n += 1
+            for c in ast.walk(f):
+                if isinstance(c, ast.Call):
+                    name = dotted_name(c.func) or ""
+                    kind, ref = model.resolve_name(mod, name) if name else ("ext", name)
+                    full = ref if kind == "ext" else name
+                    if full in PD_ONLY or (full.split(".")[-1] == "solve" and any(kw.arg in ("assume_a", "sym_pos") and "pos" in src(kw.value) + (kw.arg or "") for kw in c.keywords)):
+                        found.append((mname, q, c, full))
+    ctl = ast.parse("import numpy\ndef f(a):\n    return numpy.linalg.cholesky(a)\n")
+    if not any(isinstance(c, ast.Call) and dotted_name(c.func) in PD_ONLY for c in ast.walk(ctl)):
+        raise AnalysisError("positive control for the positive-definite-only matcher failed")
+    if not found:
+        ctx.ok(f"no positive-definite-only factorisation in {len(CORE_MODULES)} live modules ({n} functions)", Where("cij/core", "", 0), "0 sites")
+    for mname, q, c, full in found:
+        mod = model.mod(mname)
+        ctx.violation(f"{q}:{full}", Where(mod.rel, q, c.lineno), expected="a general inverse / solve (numpy.linalg.inv, solve)",
+                      found=src(c)[:100], explanation=f"{full} raises LinAlgError unless its argument is positive definite at EVERY grid point: a grid corner "
+                                                      f"where the stiffness is not positive definite (allowed by the property) aborts the whole calculation",
+                      instance=f"{q}: {full}")
+
+
 def r_complex(ctx, model):
     n = 0
     found = []
@@ -401,6 +434,7 @@ RULES = [
     ("R12.5", "every schema-valid interpolator name is dispatched (= R11.5)", r_dispatch),
     ("R12.6", "unpack arity of qha's fit at every call site", r_arity),
     ("R12.7", "Gamma acoustic entries (0/0 in every Bose factor) are overwritten on a copy before the reduction (= R01.7)", r_gamma_store),
+    ("R12.10", "no factorisation that exists only for positive-definite matrices (Cholesky) in the live core modules", r_pd_only),
     ("R12.9", "node selection of the interpolators raises nothing and yields distinct nodes for every volume count 2..16 and order 1..12 (= R11.9)", r_nodes),
     ("R12.8", "main-path well-formedness: definite assignment (X1) and defined names (X4) in every function", r_wellformed),
 ]
